@@ -83,8 +83,16 @@ def lists_st(draw, N, cnmax=6):
 
 
 @st.composite
-def field_st(draw, N, d, kinds=("uniform", "one", "localised", "random")):
+def field_st(draw, N, d, kinds=("uniform", "one", "localised", "random", "integer")):
     kind = draw(st.sampled_from(list(kinds)))
+    if kind == "integer":
+        # lattice spins / clock-model vectors / integer lattice displacements: integer-VALUED fields, which callers may
+        # well hold in an integer-dtype array (seeded C15-D allocated the outputs with zeros_like(field): the neighbour
+        # averages were truncated towards zero)
+        e = draw(hnp.arrays(np.int64, (N, d), elements=st.integers(-3, 3), fill=st.nothing())).astype(float)
+        if not e.any():
+            e[0, 0] = 1.0
+        return e, kind
     if kind == "uniform":
         v = draw(hnp.arrays(np.float64, (d,), elements=VAL, fill=st.nothing()))
         if not np.any(np.abs(v) >= 0.25):
@@ -129,14 +137,15 @@ def measures_st(draw):
     lists, order = draw(lists_st(N))
     second = draw(lists_st(N))[0] if draw(st.integers(0, 3)) == 0 else None
     c = draw(st.one_of(st.sampled_from([-1.0, 2.0, 0.5, -3.0, 1e-3, 1e3]), nice_float(0.01, 100.0)))
-    return {"d": d, "e": e, "kind": kind, "lists": lists, "order": order, "second": second, "c": float(c)}
+    return {"d": d, "e": e, "kind": kind, "lists": lists, "order": order, "second": second, "c": float(c),
+            "as_int": bool(kind == "integer" and draw(st.integers(0, 2)) > 0)}
 
 
 def check_measures(case):
     e, lists = case["e"], case["lists"]
     N, d = e.shape
     fn = write_lists(lists, case["order"], case["second"])
-    inp = e.copy()
+    inp = e.astype(np.int64) if case.get("as_int") else e.copy()
     pr = participation_ratio(inp)
     require(np.ndim(pr) == 0 and np.isfinite(pr), f"participation_ratio returned {pr!r}")
     pr = float(pr)
@@ -162,7 +171,7 @@ def check_measures(case):
         if case["kind"] == "uniform":
             close("phase quotient of a uniform field", float(pq), 1.0, rtol=1e-12, atol=0)
     require(np.array_equal(inp, e), "a vector measure modified its input field")
-    tags = [f"d{d}", "field-" + case["kind"], "pq-checked" if pq_checked else "pq-undefined",
+    tags = [f"d{d}", "field-" + case["kind"], "dtype-int64" if case.get("as_int") else "dtype-float64", "pq-checked" if pq_checked else "pq-undefined",
             "two-frame-file" if case["second"] is not None else "one-frame-file",
             "rows-shuffled" if case["order"] != list(range(N)) else "rows-ordered",
             "N<=4" if N <= 4 else ("N<=10" if N <= 10 else "N>10")]
@@ -189,11 +198,13 @@ def divcurl_st(draw):
     cfg = draw(config_st(nmin=2, nmax=20, K=1, frames=(1, 1), lmin=2.0, lmax=30.0, exact_lattice=False))
     d, N = cfg["d"], len(cfg["types"])
     lists, order = draw(lists_st(N))
-    kind = draw(st.sampled_from(["random", "linear", "linear"]))
+    kind = draw(st.sampled_from(["random", "linear", "linear", "integer"]))
     A = draw(hnp.arrays(np.float64, (d, d), elements=st.one_of(st.integers(-8, 8).map(lambda k: k / 4.0), fl(-2.0, 2.0)), fill=st.nothing()))
     b = draw(hnp.arrays(np.float64, (d,), elements=VAL, fill=st.nothing()))
     if kind == "linear":
         u = cfg["pos"][0] @ A.T + b
+    elif kind == "integer":
+        u = draw(hnp.arrays(np.int64, (N, d), elements=st.integers(-3, 3), fill=st.nothing()))   # integer dtype on purpose
     else:
         u = draw(hnp.arrays(np.float64, (N, d), elements=VAL, fill=st.nothing()))
     if kind == "linear" and draw(st.booleans()):
@@ -211,7 +222,9 @@ def divcurl_st(draw):
         lists2, order2 = draw(lists_st(N))
         cfg["again"] = {"cell": {"d": d, "kind": c0["kind"], "H": H2, "lo": c0["lo"].copy(), "origin": c0["origin"]},
                         "f": draw(frac_st(N, d)), "lists": lists2, "order": order2,
-                        "u": draw(hnp.arrays(np.float64, (N, d), elements=VAL, fill=st.nothing()))}
+                        "u": (draw(hnp.arrays(np.int64, (N, d), elements=st.integers(-3, 3), fill=st.nothing()))
+                              if kind == "integer" else
+                              draw(hnp.arrays(np.float64, (N, d), elements=VAL, fill=st.nothing())))}
     return cfg
 
 
